@@ -212,6 +212,16 @@ func VerifStubDecoderDecode(d *_cbor.Decoder, dest any) error {
 		st.pos = end
 		return nil
 	case *any:
+		if VerifDepositValue == nil && VerifAnyIsOpaque {
+			// generic decode of some well-formed item: an opaque value, the cursor moves past it
+			l := verifItemLen(st.data, st.pos)
+			if st.pos+l > len(st.data) {
+				return io.ErrUnexpectedEOF
+			}
+			*v = verifNotUint{}
+			st.pos += l
+			return nil
+		}
 		if VerifDepositValue == nil {
 			return errVerifStub
 		}
@@ -270,7 +280,58 @@ func VerifStubEncode(data any) ([]byte, error) {
 	if m, ok := data.(_cbor.Marshaler); ok {
 		return m.MarshalCBOR()
 	}
+	if VerifPreciseEncode {
+		switch v := data.(type) {
+		case *any: // the library follows pointers and interfaces to the value
+			if v != nil {
+				return VerifStubEncode(*v)
+			}
+		case int64:
+			return verifEncInt(v), nil
+		case uint64:
+			return verifEncHead(0, v), nil
+		case []int64:
+			out := verifEncHead(4, uint64(len(v)))
+			for _, x := range v {
+				out = append(out, verifEncInt(x)...)
+			}
+			return out, nil
+		case []byte:
+			return append(verifEncHead(2, uint64(len(v))), v...), nil
+		}
+	}
 	return verifOpaqueBytes("enc", data), nil
+}
+
+// VerifAnyIsOpaque (set by a harness): a generic decode (destination *any) with no prepared
+// value yields an opaque value and consumes one item extent.
+var VerifAnyIsOpaque bool
+
+// VerifPreciseEncode (set by a harness): integers, integer lists and byte strings are encoded
+// by the reference encoder below (RFC 8949 preferred serialisation, which is what the
+// library produces) instead of as opaque bytes.
+var VerifPreciseEncode bool
+
+func verifEncHead(major byte, arg uint64) []byte {
+	m := major << 5
+	switch {
+	case arg < 24:
+		return []byte{m | byte(arg)}
+	case arg <= 0xff:
+		return []byte{m | 24, byte(arg)}
+	case arg <= 0xffff:
+		return []byte{m | 25, byte(arg >> 8), byte(arg)}
+	case arg <= 0xffffffff:
+		return []byte{m | 26, byte(arg >> 24), byte(arg >> 16), byte(arg >> 8), byte(arg)}
+	}
+	return []byte{m | 27, byte(arg >> 56), byte(arg >> 48), byte(arg >> 40), byte(arg >> 32), byte(arg >> 24), byte(arg >> 16), byte(arg >> 8), byte(arg)}
+}
+
+func verifEncInt(v int64) []byte {
+	if v >= 0 {
+		return verifEncHead(0, uint64(v))
+	}
+	return verifEncHead(1, uint64(-1-v))
 }
 
 // VerifDeposits: per-input decode results prepared by the harness, keyed by the address of
